@@ -327,8 +327,11 @@ impl<'a> Analyzer<'a> {
         }
         s.enter_count[t as usize] += 1;
         if s.enter_count[t as usize] > 1 {
-          let in_bu = s.in_bu;
-          self.add(s, &[Prop::C02, Prop::C04, Prop::C07], "executed-twice", "",
+          // Top-down sessions: C02 (and C07). Bottom-up builds: C04, whose quantifier does not cover histories with
+          // an aborted build (a task without output that is also scheduled is executed twice there: noted in DESIGN).
+          let in_bu = s.in_bu || s.bu_seen;
+          let props: &[Prop] = if !in_bu { &[Prop::C02, Prop::C07] } else if !self.post_abort { &[Prop::C04] } else { &[] };
+          self.add(s, props, "executed-twice", "",
             format!("T{} was executed {} times in one session (bottom-up phase: {})", t, s.enter_count[t as usize], in_bu));
         }
         let sh = &mut self.sh[t as usize];
@@ -782,7 +785,9 @@ impl<'a> Analyzer<'a> {
         }
         // C01 (also the output part of C18/C19): from-scratch comparison.
         if is_top_down || in_scope_bu {
-          let judge_c01 = self.class.wf();
+          // Content/outputs are compared with a clean build only under exact write checkers (a writer that declares
+          // "I only care that the file exists" legitimately lets a foreign content stand).
+          let judge_c01 = self.class.wf() && self.exact_writes();
           if judge_c01 {
             let m = m1::build(self.prog, &st.pre_cells, &roots);
             let expect: Vec<u8> = m.outputs.iter().map(|o| o.unwrap_or(255)).collect();
@@ -837,8 +842,23 @@ impl<'a> Analyzer<'a> {
           _ => {}
         }
         let ob = s.obligation.take();
+        // Does a conflict of the reported kind exist over the recorded (shadow) edges, stale ones included?
+        let conflict_recorded = match s.call.last() {
+          Some(CallRec::Read(c, r)) => {
+            let reach = self.reach(*c);
+            kind == PanicKind::Hidden && self.writers_of(*r).iter().any(|w| *w != *c && reach & bit(*w) == 0)
+          }
+          Some(CallRec::Write(c, r, _)) => {
+            if kind == PanicKind::Overlap { self.writers_of(*r).iter().any(|w| *w != *c) }
+            else { kind == PanicKind::Hidden && self.readers_of(*r).iter().any(|x| *x != *c && self.reach(*x) & bit(*c) == 0) }
+          }
+          Some(CallRec::Req(c, u)) => kind == PanicKind::Cycle && (*c == *u || self.reach(*u) & bit(*c) != 0 || s.exec_stack.contains(u)),
+          None => false,
+        };
         if let Some(ob) = &ob {
-          if diagnosed && !ob.kinds.contains(&kind) {
+          // A different diagnosis is accepted when a conflict of that kind is recorded as well (coexisting
+          // conflicts, possibly a stale one: pie tests overlap before hidden dependencies; staleness is C20's).
+          if diagnosed && !ob.kinds.contains(&kind) && !conflict_recorded {
             let mut props = Vec::new();
             if ob.hidden { props.push(Prop::C05); }
             if ob.overlap { props.push(Prop::C06); }
@@ -856,18 +876,7 @@ impl<'a> Analyzer<'a> {
           let justified = justified_by_current || scratch.any_violation();
           if !justified {
             // Stale-edge finding? The conflict must exist over the recorded (shadow) edges.
-            let conflict = match s.call.last() {
-              Some(CallRec::Read(c, r)) => {
-                let reach = self.reach(*c);
-                self.writers_in(pre_sh, *r).iter().any(|w| *w != *c && reach & bit(*w) == 0) || self.writers_of(*r).iter().any(|w| *w != *c && reach & bit(*w) == 0)
-              }
-              Some(CallRec::Write(c, r, _)) => {
-                if kind == PanicKind::Overlap { self.writers_of(*r).iter().any(|w| *w != *c) }
-                else { self.readers_of(*r).iter().any(|x| *x != *c && self.reach(*x) & bit(*c) == 0) }
-              }
-              Some(CallRec::Req(c, u)) => *c == *u || self.reach(*u) & bit(*c) != 0,
-              None => false,
-            };
+            let conflict = conflict_recorded;
             let key = if conflict { format!("C20/stale-edge/{}", site) } else { String::new() };
             self.add(s, &[Prop::C20, Prop::C19], "unjustified-abort", &key,
               format!("build aborted with '{}' (site {}), but a from-scratch build of all known tasks {:?} in cells {:?} has no cycle, hidden dependency or overlapping write; conflict over recorded edges: {}",
@@ -890,6 +899,12 @@ impl<'a> Analyzer<'a> {
       Op::Req(_, oc) => oc.is_exact(),
       Op::Read(_, rc) | Op::Write(_, _, rc) | Op::WriteDecl(_, _, rc) => rc == RC::Exact,
       Op::Panic => true,
+    })
+  }
+  pub fn exact_writes(&self) -> bool {
+    self.prog.bodies.iter().flatten().all(|s| match s.op {
+      Op::Write(_, _, rc) | Op::WriteDecl(_, _, rc) => matches!(rc, RC::Exact | RC::Faulty),
+      _ => true,
     })
   }
   fn uses_faulty(&self) -> bool {
